@@ -1685,6 +1685,123 @@ func r19NoScalarCarriedBetweenLevels(c *core.Ctx) {
 			return true
 		})
 	}
+	// the same one storey up: the results per requested tile matrix are delivered by loops over id-keyed maps
+	n2, bad2 := 0, ""
+	for _, fn := range sortedFuncs(c.P) {
+		if core.ShortPkg(fn.Pkg.PkgPath) != "processing" || fn.Decl.Body == nil {
+			continue
+		}
+		info := fn.Pkg.TypesInfo
+		// a scalar only counts as carried when a loop over tile matrix ids also reads it (a tally for the log,
+		// read after the loops, decides nothing)
+		readIn := map[types.Object]bool{}
+		ast.Inspect(fn.Decl.Body, func(nd ast.Node) bool {
+			rs, ok := nd.(*ast.RangeStmt)
+			if !ok {
+				return true
+			}
+			m, isMap := types.Unalias(info.TypeOf(rs.X)).Underlying().(*types.Map)
+			if !isMap {
+				return true
+			}
+			if a, isAlias := m.Key().(*types.Alias); !isAlias || a.Obj().Name() != "TMID" {
+				return true
+			}
+			ast.Inspect(rs.Body, func(x ast.Node) bool {
+				switch st := x.(type) {
+				case *ast.IncDecStmt:
+					if _, isId := ast.Unparen(st.X).(*ast.Ident); isId {
+						return false
+					}
+				case *ast.AssignStmt:
+					// x = x op ..., x op= ...: reading its own old value
+					own := map[types.Object]bool{}
+					for _, l := range st.Lhs {
+						if id, isId := ast.Unparen(l).(*ast.Ident); isId {
+							own[core.ObjOf(info, id)] = true
+						}
+					}
+					for _, r := range st.Rhs {
+						ast.Inspect(r, func(y ast.Node) bool {
+							if id, isId := y.(*ast.Ident); isId {
+								if o := info.Uses[id]; o != nil && !own[o] {
+									readIn[o] = true
+								}
+							}
+							return true
+						})
+					}
+					for _, l := range st.Lhs {
+						if _, isId := ast.Unparen(l).(*ast.Ident); !isId {
+							ast.Inspect(l, func(y ast.Node) bool {
+								if id, isId := y.(*ast.Ident); isId {
+									if o := info.Uses[id]; o != nil {
+										readIn[o] = true
+									}
+								}
+								return true
+							})
+						}
+					}
+					return false
+				case *ast.Ident:
+					if o := info.Uses[st]; o != nil {
+						readIn[o] = true
+					}
+				}
+				return true
+			})
+			return true
+		})
+		ast.Inspect(fn.Decl.Body, func(nd ast.Node) bool {
+			rs, ok := nd.(*ast.RangeStmt)
+			if !ok {
+				return true
+			}
+			m, isMap := types.Unalias(info.TypeOf(rs.X)).Underlying().(*types.Map)
+			if !isMap {
+				return true
+			}
+			if a, isAlias := m.Key().(*types.Alias); !isAlias || a.Obj().Name() != "TMID" {
+				return true
+			}
+			n2++
+			ast.Inspect(rs.Body, func(x ast.Node) bool {
+				var lhs []ast.Expr
+				switch s := x.(type) {
+				case *ast.AssignStmt:
+					if s.Tok != token.DEFINE {
+						lhs = s.Lhs
+					}
+				case *ast.IncDecStmt:
+					lhs = []ast.Expr{s.X}
+				}
+				for _, l := range lhs {
+					id, ok := ast.Unparen(l).(*ast.Ident)
+					if !ok {
+						continue
+					}
+					v, isVar := core.ObjOf(info, id).(*types.Var)
+					if !isVar || v.IsField() {
+						continue
+					}
+					if _, basic := v.Type().Underlying().(*types.Basic); !basic {
+						continue
+					}
+					if v.Pos() >= nd.Pos() && v.Pos() <= nd.End() {
+						continue
+					}
+					if !readIn[v] {
+						continue
+					}
+					bad2 += fmt.Sprintf("%s: %s is assigned inside the loop over tile matrix ids at %s; ", c.P.Pos(x.Pos()), v.Name(), c.P.Pos(nd.Pos()))
+				}
+				return true
+			})
+			return true
+		})
+	}
+	c.Check(R, "no-scalar-carried-between-tile-matrices/processing", root.Decl.Pos(), bad2 == "" && n2 >= 2, fmt.Sprintf("%d loops over the results per tile matrix id; none assigns a flag, counter or other scalar that outlives the iteration", n2), "what is delivered for one tile matrix depends on the others requested with it: "+bad2)
 	c.Check(R, "no-scalar-carried-between-levels/snap+pointindex", root.Decl.Pos(), bad == "" && n >= 5, fmt.Sprintf("%d loops over requested levels; none assigns a flag, counter or other scalar that outlives the iteration", n), "state is carried from one level to another: "+bad)
 }
 
@@ -2486,5 +2603,297 @@ func r44SingleSuccessExit(c *core.Ctx) {
 			}
 		}
 		c.Check(R, "single-success-exit/"+name, f.Decl.Pos(), n == 1, "one successful return, the one the identities are about", fmt.Sprintf("%d returns can answer successfully (%s): a shortcut exit bypasses the formulas the other rules decide", n, where))
+	}
+}
+
+func init() {
+	reg("R37", r37MissingMatrixIsAnError)
+}
+
+// r37MissingMatrixIsAnError: a tile matrix that is looked up by id in TileMatrices and then dereferenced through one
+// of its pointer members (the point of origin) is known to be there: the lookup is the comma-ok form and the
+// dereference lies on its ok side, or the id is a key of the same map (an element of its Keys, or the key of a range
+// over it).  Otherwise an id that the set does not have gives the zero matrix, and validation panics on its nil
+// pointer where it has to answer with an error (DeviationStats asks for matrix 0 of whatever set it is given).
+// Looked at: every function validateTileMatrixSet can reach.
+func r37MissingMatrixIsAnError(c *core.Ctx) {
+	const R = "R37"
+	v := c.Anchor(R, "main.validateTileMatrixSet")
+	if v == nil || v.SSA == nil {
+		return
+	}
+	reach := core.Reachable(c.P.VTA(), v.SSA)
+	n := 0
+	for _, f := range sortedFuncs(c.P) {
+		if f.SSA == nil {
+			continue
+		}
+		if _, ok := reach[f.SSA]; !ok {
+			continue
+		}
+		k := 0
+		for _, b := range f.SSA.Blocks {
+			for _, in := range b.Instrs {
+				lk, ok := in.(*ssa.Lookup)
+				if !ok || !isFieldRead(lk.X, "TileMatrices") {
+					continue
+				}
+				// pointers taken out of the looked-up matrix
+				var val ssa.Value = lk
+				var okVal ssa.Value
+				if lk.CommaOk {
+					val = nil
+					for _, r := range *lk.Referrers() {
+						if e, isE := r.(*ssa.Extract); isE {
+							if e.Index == 0 {
+								val = e
+							} else {
+								okVal = e
+							}
+						}
+					}
+				}
+				if val == nil {
+					continue
+				}
+				var ptrs []ssa.Value
+				holders := []ssa.Value{val}
+				for _, r := range *val.Referrers() {
+					if st, isSt := r.(*ssa.Store); isSt && st.Val == val {
+						holders = append(holders, st.Addr)
+					}
+				}
+				for _, h := range holders {
+					for _, r := range *h.Referrers() {
+						switch x := r.(type) {
+						case *ssa.Field:
+							if _, isP := x.Type().Underlying().(*types.Pointer); isP {
+								ptrs = append(ptrs, x)
+							}
+						case *ssa.FieldAddr:
+							if pt, isP := x.Type().Underlying().(*types.Pointer); isP {
+								if _, isPP := pt.Elem().Underlying().(*types.Pointer); isPP {
+									for _, rr := range *x.Referrers() {
+										if u, isU := rr.(*ssa.UnOp); isU && u.Op == token.MUL {
+											ptrs = append(ptrs, u)
+										}
+									}
+								}
+							}
+						}
+					}
+				}
+				var derefs []ssa.Instruction
+				for _, p := range ptrs {
+					for _, r := range *p.Referrers() {
+						switch x := r.(type) {
+						case *ssa.UnOp:
+							if x.Op == token.MUL && x.X == p {
+								derefs = append(derefs, x)
+							}
+						case *ssa.FieldAddr:
+							if x.X == p {
+								derefs = append(derefs, x)
+							}
+						case *ssa.IndexAddr:
+							if x.X == p {
+								derefs = append(derefs, x)
+							}
+						}
+					}
+				}
+				if len(derefs) == 0 {
+					continue
+				}
+				k++
+				n++
+				construct := fmt.Sprintf("missing-matrix-is-an-error/%s#%d", f.Name, k)
+				if lk.CommaOk {
+					bad := ""
+					for _, d := range derefs {
+						guarded := false
+						if okVal != nil {
+							for _, r := range *okVal.Referrers() {
+								if i, isIf := r.(*ssa.If); isIf && i.Cond == okVal {
+									t := i.Block().Succs[0]
+									if len(t.Preds) == 1 && t.Dominates(d.Block()) {
+										guarded = true
+									}
+								}
+							}
+						}
+						if !guarded {
+							bad += c.P.Pos(d.Pos()) + " "
+						}
+					}
+					c.Check(R, construct, lk.Pos(), bad == "", fmt.Sprintf("comma-ok lookup; all %d dereferences of the matrix's pointer members lie on the ok side", len(derefs)),
+						"a pointer member of the looked-up tile matrix is dereferenced where the id may be missing (zero matrix, nil pointer): "+bad)
+					continue
+				}
+				// the id is a key of the same map
+				why := ""
+				switch key := lk.Index.(type) {
+				case *ssa.UnOp:
+					if ia, isIA := key.X.(*ssa.IndexAddr); isIA && key.Op == token.MUL {
+						if call, isC := ia.X.(*ssa.Call); isC && len(call.Call.Args) == 1 && isFieldRead(call.Call.Args[0], "TileMatrices") {
+							if cal := call.Call.StaticCallee(); cal != nil && strings.Contains(cal.Name(), "Keys") {
+								name := cal.Name()
+								if i := strings.Index(name, "["); i > 0 {
+									name = name[:i]
+								}
+								why = "the id is an element of " + name + "(TileMatrices)"
+							}
+						}
+					}
+				case *ssa.Extract:
+					if nx, isN := key.Tuple.(*ssa.Next); isN && key.Index == 1 {
+						if rg, isR := nx.Iter.(*ssa.Range); isR && isFieldRead(rg.X, "TileMatrices") {
+							why = "the id is the key of a range over TileMatrices"
+						}
+					}
+				}
+				c.Check(R, construct, lk.Pos(), why != "", why, fmt.Sprintf("the tile matrix is looked up without the comma-ok form by an id that is not known to be a key of the map, and %d pointer member dereference(s) follow (%s): an id the set does not have panics instead of giving an error",
+					len(derefs), c.P.Pos(derefs[0].Pos())))
+			}
+		}
+	}
+	if n == 0 {
+		c.Bad(R, "missing-matrix-is-an-error/none", v.Decl.Pos(), "no lookup of a tile matrix followed by a dereference of its point of origin found behind validateTileMatrixSet (floor 1)")
+	}
+}
+
+func init() {
+	reg("R12", func(c *core.Ctx) { levelLoopVisitsEveryLevel(c, "R12") })
+	reg("R18", func(c *core.Ctx) { levelLoopVisitsEveryLevel(c, "R18") })
+}
+
+// levelLoopVisitsEveryLevel: what happens at one level (the ring collapses there and the level is dropped, nothing
+// to add, ...) ends that level's iteration only: a loop over levels on the snapping call graph is left through its
+// header alone -- no break, goto or return out of its body, other than on the way to a panic.  Otherwise the levels
+// the loop has not reached yet (for a map, a random subset) lose their result.
+func levelLoopVisitsEveryLevel(c *core.Ctx, R string) {
+	root := c.Anchor(R, "snap.SnapPolygon")
+	if root == nil {
+		return
+	}
+	reach := core.ReachableNoStdlibTransit(c.P.VTA(), root.SSA)
+	n := 0
+	for _, fn := range sortedFuncs(c.P) {
+		sp := core.ShortPkg(fn.Pkg.PkgPath)
+		if (sp != "snap" && sp != "pointindex") || fn.Decl.Body == nil || fn.SSA == nil {
+			continue
+		}
+		if _, ok := reach[fn.SSA]; !ok {
+			continue
+		}
+		info := fn.Pkg.TypesInfo
+		k := 0
+		var labels = map[ast.Stmt]string{}
+		ast.Inspect(fn.Decl.Body, func(x ast.Node) bool {
+			if ls, ok := x.(*ast.LabeledStmt); ok {
+				labels[ls.Stmt] = ls.Label.Name
+			}
+			return true
+		})
+		ast.Inspect(fn.Decl.Body, func(x ast.Node) bool {
+			body, ok := isLevelLoop(info, x)
+			if !ok {
+				return true
+			}
+			k++
+			n++
+			construct := fmt.Sprintf("level-loop-visits-every-level/%s#%d", fn.Name, k)
+			own := labels[x.(ast.Stmt)]
+			bad := ""
+			// labels declared inside the body: a jump to one of them stays inside
+			inner := map[string]bool{}
+			ast.Inspect(body, func(y ast.Node) bool {
+				if ls, ok := y.(*ast.LabeledStmt); ok {
+					inner[ls.Label.Name] = true
+				}
+				return true
+			})
+			var walk func(y ast.Node, breakable bool)
+			walk = func(y ast.Node, breakable bool) {
+				ast.Inspect(y, func(z ast.Node) bool {
+					switch s := z.(type) {
+					case *ast.FuncLit:
+						return false
+					case *ast.ForStmt:
+						if z != y {
+							walk(s.Body, true)
+							return false
+						}
+					case *ast.RangeStmt:
+						if z != y {
+							walk(s.Body, true)
+							return false
+						}
+					case *ast.SwitchStmt:
+						walk(s.Body, true)
+						return false
+					case *ast.TypeSwitchStmt:
+						walk(s.Body, true)
+						return false
+					case *ast.SelectStmt:
+						walk(s.Body, true)
+						return false
+					case *ast.ReturnStmt:
+						bad += "return at " + c.P.Pos(s.Pos()) + "; "
+					case *ast.BranchStmt:
+						switch s.Tok {
+						case token.BREAK:
+							if s.Label == nil && !breakable {
+								bad += "break at " + c.P.Pos(s.Pos()) + "; "
+							}
+							if s.Label != nil && !inner[s.Label.Name] {
+								bad += "break " + s.Label.Name + " at " + c.P.Pos(s.Pos()) + "; "
+							}
+						case token.GOTO:
+							if s.Label != nil && !inner[s.Label.Name] {
+								bad += "goto " + s.Label.Name + " at " + c.P.Pos(s.Pos()) + "; "
+							}
+						case token.CONTINUE:
+							if s.Label != nil && !inner[s.Label.Name] && s.Label.Name != own {
+								bad += "continue " + s.Label.Name + " at " + c.P.Pos(s.Pos()) + "; "
+							}
+						}
+					}
+					return true
+				})
+			}
+			walk(body, false)
+			// a loop that writes nothing per level (a search) may stop where it likes
+			writes := false
+			ast.Inspect(body, func(y ast.Node) bool {
+				switch s := y.(type) {
+				case *ast.AssignStmt:
+					for _, l := range s.Lhs {
+						switch ast.Unparen(l).(type) {
+						case *ast.IndexExpr, *ast.SelectorExpr, *ast.StarExpr:
+							writes = true
+						}
+					}
+				case *ast.CallExpr:
+					if core.IsBuiltinCall(info, s, "delete") || core.IsBuiltinCall(info, s, "clear") {
+						writes = true
+					}
+				case *ast.IncDecStmt:
+					if _, isId := ast.Unparen(s.X).(*ast.Ident); !isId {
+						writes = true
+					}
+				}
+				return true
+			})
+			if bad != "" && !writes {
+				c.OK(R, construct, x.Pos(), "a search over levels that stores nothing per level; it may stop early ("+bad+")")
+				return true
+			}
+			c.Check(R, construct, x.Pos(), bad == "", "the loop over levels is left through its header only", "a loop over levels is cut short ("+bad+"): the levels it has not reached yet lose their result")
+			return true
+		})
+	}
+	if n < 3 {
+		c.Bad(R, "level-loop-visits-every-level/floor", root.Decl.Pos(), fmt.Sprintf("only %d loops over levels found on the snapping call graph (floor 3)", n))
 	}
 }
